@@ -175,6 +175,10 @@ def float_eval(e, env):
             recip = {"sec": math.cos, "csc": math.sin, "cot": math.tan, "sech": math.cosh, "csch": math.sinh, "coth": math.tanh}
             if nm in recip:
                 r = 1.0 / recip[nm](*args)
+            elif nm == "acot":      # sympy's convention: odd, values in (-pi/2, pi/2]
+                r = math.atan(1.0 / args[0]) if args[0] != 0.0 else math.pi / 2
+            elif nm == "acsch":
+                r = math.asinh(1.0 / args[0])
             else:
                 f = getattr(math, {'abs': 'fabs'}.get(nm, nm), None)
                 if f is None:
